@@ -182,6 +182,7 @@ class Lib:
         S.append((path(r"^core::slice::<impl \[T\]>::first$"), self.first))
         S.append((path(r"^<std::slice::Iter<'a, T> as std::iter::Iterator>::(all|any)$"), self.slice_iter_all_any))
         S.append((path(r"^<std::slice::Iter(Mut)?<'a, T> as std::iter::Iterator>::for_each$"), self.slice_iter_for_each))
+        S.append((path(r"^std::iter::Iterator::for_each$|^<std::iter::Enumerate<I> as std::iter::Iterator>::for_each$"), self.enumerate_for_each))
         S.append((path(r"^std::iter::Iterator::zip$"), self.iter_zip))
         S.append((path(r"^<std::iter::Zip<A, B> as std::iter::Iterator>::next$"), self.zip_next))
         S.append((path(r"^<std::iter::Zip<A, B> as std::iter::Iterator>::(all|any)$|^std::iter::Iterator::(all|any)$"), self.zip_all_any))
@@ -555,6 +556,38 @@ class Lib:
             return CallThen(body, [Ref(("H", fcell.id), ()), elem], lambda it2, st2, rv: step(it2, st2))
 
         return step(it, st)
+
+    def enumerate_for_each(self, it, st, inst, args, call):
+        """`slice_iter.enumerate().for_each(f)`: the closure is interpreted once per remaining element with (count, element),
+        front to back (Enumerate's contract), the count starting at the adaptor's current count."""
+        from .absint import CallThen
+        v = args[0]
+        if not (isinstance(v, Agg) and v.ty is not None and it.p.types[v.ty].get("name") == "std::iter::Enumerate"):
+            return NotImplemented
+        names = [f["name"] for f in it.p.types[v.ty]["variants"][0]["fields"]]
+        inner, cnt = v.fields[names.index("iter")], v.fields[names.index("count")]
+        if not (isinstance(inner, Obj) and isinstance(st.heap.get(inner.id), AIter) and isinstance(cnt, Conc)):
+            return NotImplemented
+        iid = inner.id
+        body = None
+        for a_ in inst.get("args", []):
+            if it.p.types[a_]["k"] == "closure":
+                body = closure_instance(it.p, a_)
+        if body is None:
+            raise Undecided("cannot identify the closure passed to %s" % inst["name"][:80])
+        tup = it.p.inst[body]["locals"][2]
+        fcell = st.new_obj(args[1])
+
+        def step(it_, st_, k):
+            a = st_.heap[iid]
+            if a.pos >= a.end:
+                return UNIT
+            st_.heap[iid] = AIter(a.vec, a.pos + 1, a.end, a.role)
+            st_.emit("elem", a.vec, a.pos)
+            elem = Ref(("H", a.vec), (("el", a.pos),))
+            return CallThen(body, [Ref(("H", fcell.id), ()), Agg(tup, 0, (Conc(k), elem))], lambda it2, st2, rv: step(it2, st2, k + 1))
+
+        return step(it, st, cnt.v)
 
     def slice_iter_all_any(self, it, st, inst, args, call):
         """`iter.all(f)` / `iter.any(f)` over an exactly modelled slice iterator: the closure body is interpreted once per
